@@ -187,6 +187,17 @@ def judge_fold(case):
         elif a != b:
             raise Violation("source-over-container-not-repeatable",
                             "two calls of the same Source over a list give %s then %s" % (short(a), short(b)))
+    # the same Sequence object run a second time on an equal flow gives the same again
+    # (streaming elements only: accumulators and counters carry state from run to run by design)
+    if all(r[0] in ("map", "var", "filter", "slice", "runif", "reverse", "end", "print", "callfc", "seq") for r in R.flat(els)) \
+            and all(x[0] in ("map", "var", "filter", "slice") for r in R.flat(els) if r[0] == "runif" for x in r[2]):
+        same = Sequence(*build_bracketed(els, case["bracket"]))
+        first_run = _norm(_drain(lambda: same.run(_as_flow(flowjs, case["flow_as"]))))
+        second_run = _norm(_drain(lambda: same.run(_as_flow(flowjs, "iter"))))
+        if first_run != ref or second_run != ref:
+            raise Violation("second-run-of-the-same-sequence-differs",
+                            "%s on %s: first run %s, second run %s, expected %s" % (
+                                short(els, 400), short(flowjs), short(first_run, 300), short(second_run, 300), short(ref, 300)))
     kinds = _kinds(els)
     depth = _depth(case["bracket"])
     nt = (len(R.flat(els)) >= 2 and len(kinds) >= 2 and bool(flowjs)) or depth >= 2
